@@ -91,7 +91,7 @@ func Solve2(query, arithQuery string, name string, cfg *SolverCfg) *SolveResult 
 	}
 	solvers := cfg.Solvers
 	if len(solvers) == 0 {
-		solvers = []string{"z3new-e", "z3-e", "z3new", "cvc5", "z3new-qf"}
+		solvers = []string{"z3new-e", "z3-e", "z3new", "z3", "cvc5", "z3new-qf"}
 	}
 	qfFile := strings.TrimSuffix(file, ".smt2") + ".arith.smt2"
 	if arithQuery != "" {
